@@ -182,7 +182,7 @@ SET_OPTS = [
 ENUM_OPTS = [{}, {"set_default_enum_member": True}, {"use_subclass_enum": True, "set_default_enum_member": True},
              {"enum_field_as_literal": "all"}, {"enum_field_as_literal": "one"}, {"use_one_literal_as_default": True, "enum_field_as_literal": "one"},
              {"capitalise_enum_members": True, "set_default_enum_member": True}]
-EXAMPLE_OPTS = [{"field_include_all_keys": True}, {"field_extra_keys": ["examples", "example"]}, {}, {"use_annotated": True, "field_include_all_keys": True}]
+EXAMPLE_OPTS = [{"field_include_all_keys": True}, {"field_extra_keys": ["examples", "example"]}, {}, {"use_annotated": True, "field_constraints": True, "field_include_all_keys": True}]
 REQUIRED_OPTS = [{}, {"force_optional_for_required_fields": True}, {"strict_nullable": True}, {"keep_model_order": True},
                  {"use_default_kwarg": True, "apply_default_values_for_required_fields": True}]
 
@@ -384,4 +384,27 @@ def shrink_candidates(case: dict) -> list[dict]:
                 continue
             d = {"title": doc.get("title", "M"), "type": "object", "properties": {pname: sub}}
             out.append({**case, "id": case["id"] + "m", "text": json.dumps(d)})
+    return out
+
+
+def shrink_keywords(case: dict) -> list[dict]:
+    """for a one-property document: the same property with every subset of its non-structural keywords removed, fewest keywords
+    first (at most five such keywords)"""
+    doc = json.loads(case["text"])
+    holder = doc
+    if case["input_file_type"] == "openapi":
+        schemas = doc.get("components", {}).get("schemas", {})
+        if len(schemas) != 1:
+            return []
+        holder = next(iter(schemas.values()))
+    props = holder.get("properties") or {}
+    if len(props) != 1:
+        return []
+    (pname, sub), = props.items()
+    extra = [kw for kw in sub if kw not in ("type", "items", "additionalProperties", "$ref")][:5]
+    out = []
+    for r in range(0, len(extra)):
+        for keep in itertools.combinations(extra, r):
+            holder["properties"] = {pname: {kw: v for kw, v in sub.items() if kw not in extra or kw in keep}}
+            out.append({**case, "text": json.dumps(doc)})
     return out
